@@ -81,6 +81,16 @@ type writeSet struct {
 	all    bool
 	locals map[*ssa.Alloc]bool
 	ghosts map[string]bool // ghost globals / call witnesses (re)assigned in the loop body
+	// prefixes: whole heap arrays havocked through a callee's `assigns key("K|T|path")`: every key with such a prefix is
+	// loop-carried, also the ones the discovery run never materialised (they are only named when first read)
+	prefixes map[string]bool
+}
+
+func (ws *writeSet) addPrefix(p string) {
+	if ws.prefixes == nil {
+		ws.prefixes = map[string]bool{}
+	}
+	ws.prefixes[p] = true
 }
 
 // setGhost assigns a ghost variable; in discovery mode the name is recorded so that the loop head forgets it.
